@@ -169,8 +169,17 @@ impl QueryTask {
         let mut explains = Vec::new();
         while let Some((partition, id)) = self.next_partition() {
             let show = self.show.contains(&id);
-            let cols =
-                partition.get_cols(&self.referenced_cols, &self.db, self.perf_counter.as_ref());
+            let cols = match partition.get_cols(
+                &self.referenced_cols,
+                &self.db,
+                self.perf_counter.as_ref(),
+            ) {
+                Ok(cols) => cols,
+                Err(error) => {
+                    self.fail_with(error);
+                    return;
+                }
+            };
             rows_scanned += cols.iter().next().map_or(0, |c| c.1.len());
             let unsafe_cols = unsafe {
                 mem::transmute::<
